@@ -460,6 +460,72 @@ fn torn_sweep<const L0: usize, const L1: usize, const L2: usize, const C_LO: usi
     }
 }
 
+// ---------------------------------------------------------------------------------------------
+// crash between two frames, recovery, and the writer resuming behind the recovered prefix
+// (C02: "the recovered log is fully usable")
+// ---------------------------------------------------------------------------------------------
+/// For every frame end c of the stream: image = first c bytes (a process crash exactly between two
+/// device writes), then a *new* entry of NEWLEN symbolic bytes is written by a real writer that
+/// resumes at c -- where the reader stopped, which is what `RecordReader::into_writer` does for a
+/// log that ends on a frame boundary -- and the whole image is recovered: the entries completed
+/// before c, then the new entry, byte for byte; the orphan frames of the interrupted entry are
+/// never delivered and never spliced into the new entry.
+fn resume_sweep<const L0: usize, const L1: usize, const L2: usize, const F_LO: usize, const F_HI: usize, const NEWLEN: usize>() {
+    let lens = [L0, L1, L2];
+    let p: [[u8; PL]; NE] = kani::any();
+    let q: [u8; PL] = kani::any();
+    let lay = ref_layout(&lens);
+    let full = write_stream(&lens, &p, &lay);
+    let mut f = F_LO;
+    while f <= F_HI && f < lay.n {
+        let fr = lay.frames[f];
+        let c = fr.off + H + fr.len;
+        // first entry that is not complete at c: its slot is taken by the new entry
+        let mut slot = 0;
+        while slot < NE && lay.entry_end[slot] <= c {
+            slot += 1;
+        }
+        if slot < NE {
+            mark_case();
+            if fr.entry == slot {
+                mark_nontrivial(); // orphan frames of an interrupted multi-frame entry stay behind
+            }
+            let mut img = [0u8; DEV];
+            let mut i = 0;
+            while i < c {
+                img[i] = full[i];
+                i += 1;
+            }
+            crc_writer_side();
+            let mut w = new_writer(ArrW {
+                buf: img,
+                cursor: c,
+                num_writes: 0,
+            });
+            w.write_record(Raw(&q[..NEWLEN])).unwrap();
+            let end2 = w.get_underlying_wrt().cursor;
+            let img2 = w.get_underlying_wrt().buf;
+            let mut lens2 = lens;
+            let mut p2 = p;
+            lens2[slot] = NEWLEN;
+            p2[slot] = q;
+            let mut k = slot + 1;
+            while k < NE {
+                lens2[k] = usize::MAX; // never written
+                k += 1;
+            }
+            let out = recover(img2, blocks_for(end2), lay.n + 5, 0, &lens2, &p2, usize::MAX);
+            let mut k = 0;
+            while k < NE {
+                assert!(out.delivered[k] == (k <= slot), "C02: after a crash between two frames and a resumed append, exactly the completed entries and the new entry are recovered");
+                k += 1;
+            }
+            assert!(out.corruptions == 0, "C02: an orphan frame must not be reported as corruption");
+        }
+        f += 1;
+    }
+}
+
 macro_rules! dshard {
     ($name:ident, $unwind:expr, $f:ident $(, $arg:expr)*) => {
         #[kani::proof]
